@@ -49,6 +49,8 @@ class Cell:
         self.extra = attrs.get("extra", "")         # extra seed group etc.
         self.expect_unsat_covers = int(attrs.get("unsat_covers", "0"))
         self.desc = desc
+        self.reach = attrs.get("reach", "0") == "1"   # assertion reachability checks (3-4x slower) on/off
+        self.needs = []
         self.mod = "verif_harness_" + file.stem
 
     @property
@@ -59,6 +61,8 @@ class Cell:
         parts = parts[1:]
         if parts and parts[-1] in ("mod", "lib"):
             parts = parts[:-1]
+        # src/private.rs is mounted as `pub mod __private` (#[path] in lib.rs)
+        parts = ["__private" if (i == 0 and x == "private") else x for i, x in enumerate(parts)]
         return "::".join(parts)
 
     @property
@@ -77,11 +81,16 @@ def load_cells():
         attach = None
         pending = None
         desc = ""
+        needs = []
         for line in f.read_text().splitlines():
             s = line.strip()
             m = re.match(r"//\s*@attach\s+(\S+)", s)
             if m:
                 attach = m.group(1)
+                continue
+            m = re.match(r"//\s*@needs\s+(.*)", s)
+            if m:
+                needs += m.group(1).split()
                 continue
             m = re.match(r"//\s*@cell\s+(.*)", s)
             if m:
@@ -97,6 +106,7 @@ def load_cells():
                 if attach is None:
                     raise SystemExit(f"{f}: @cell before @attach")
                 cells.append(Cell(f, attach, m.group(1), pending, desc))
+                cells[-1].needs = needs
                 pending = None
     return cells
 
@@ -117,6 +127,24 @@ def make_scratch(tag):
         check=True,
     )
     return d
+
+
+def attach_file_of(stem):
+    f = HARNESS_DIR / (stem + ".rs")
+    for line in f.read_text().splitlines():
+        m = re.match(r"//\s*@attach\s+(\S+)", line.strip())
+        if m:
+            return (f, m.group(1))
+    raise RuntimeError(f"{f}: no @attach")
+
+
+def attach_list(cells):
+    out = []
+    for c in cells:
+        for item in [(c.file, c.attach)] + [attach_file_of(n) for n in c.needs]:
+            if item not in out:
+                out.append(item)
+    return out
 
 
 def attach_modules(src, files, cfg="kani"):
@@ -180,10 +208,14 @@ def run_proc(cmd, cwd, timeout, mem_gb, log, env):
 KANI_BASE = ["cargo", "kani", "--no-default-features", "-Z", "stubbing", "-Z", "unstable-options"]
 
 
-def build(scratch):
+def build(scratch, first_harness=None):
+    """Builds the dependencies and type-checks the whole scratch crate (all attached harness modules);
+    goto code is generated for one harness only (each query regenerates its own)."""
     src = scratch / "divan"
     log = scratch / "build.log"
     cmd = KANI_BASE + ["--only-codegen", "--target-dir", str(scratch / "target")]
+    if first_harness:
+        cmd += ["--harness", first_harness, "--exact"]
     rc, to, dt = run_proc(cmd, src, 1200, 0, log, kani_env())
     return rc == 0 and not to, dt, log
 
@@ -199,6 +231,8 @@ def run_cell(scratch, cell, extra_cbmc=None, tag=""):
     js = scratch / (base + ".json")
     cmd = KANI_BASE + ["--harness", cell.harness, "--exact", "--target-dir", str(scratch / "target"),
                        "--export-json", str(js)]
+    if not cell.reach:
+        cmd += ["--no-assertion-reach-checks"]
     cbmc_args = []
     if cell.unwindset:
         cbmc_args += ["--unwindset", cell.unwindset]
@@ -215,6 +249,9 @@ def run_cell(scratch, cell, extra_cbmc=None, tag=""):
     if res["verdict"] == "PASS" and len(res["covers_unsat"]) > cell.expect_unsat_covers:
         res["verdict"] = "VACUOUS"
         res["reason"] = "cover not satisfiable: " + "; ".join(res["covers_unsat"][:3])
+    elif res["verdict"] == "PASS" and not res["covers_sat"]:
+        res["verdict"] = "VACUOUS"
+        res["reason"] = "harness has no satisfied kani::cover! witness (every harness must carry one)"
     return res
 
 
@@ -355,7 +392,7 @@ def select_cells(cells, prop, tier, seed):
     return mine
 
 
-def check_property(prop, tier, seed, props_meta, hook=None):
+def check_property(prop, tier, seed, props_meta, extra=None):
     t0 = time.time()
     cells = select_cells(load_cells(), prop, tier, seed)
     if not cells:
@@ -363,7 +400,7 @@ def check_property(prop, tier, seed, props_meta, hook=None):
         return 2
     scratch = make_scratch(prop)
     try:
-        return _check(prop, tier, seed, cells, scratch, t0, props_meta)
+        return _check(prop, tier, seed, cells, scratch, t0, props_meta, extra)
     finally:
         if not os.environ.get("VERIF_KEEP"):
             shutil.rmtree(scratch, ignore_errors=True)
@@ -371,15 +408,15 @@ def check_property(prop, tier, seed, props_meta, hook=None):
             print(f"(scratch kept at {scratch})")
 
 
-def _check(prop, tier, seed, cells, scratch, t0, props_meta):
+def _check(prop, tier, seed, cells, scratch, t0, props_meta, extra=None):
     src = scratch / "divan"
     try:
-        attach_modules(src, [(c.file, c.attach) for c in cells])
+        attach_modules(src, attach_list(cells))
     except RuntimeError as e:
         print(f"ERROR property={prop} {e}")
         write_evidence(prop, tier, seed, [], time.time() - t0, 0, [], note=str(e))
         return 2
-    ok, bdt, blog = build(scratch)
+    ok, bdt, blog = build(scratch, cells[0].harness)
     if not ok:
         tail = "\n".join(Path(blog).read_text(errors="replace").splitlines()[-40:])
         print(tail)
@@ -411,7 +448,12 @@ def _check(prop, tier, seed, cells, scratch, t0, props_meta):
         return r
 
     with ThreadPoolExecutor(max_workers=min(MAX_PAR, len(order))) as ex:
+        fut_extra = ex.submit(extra, tier) if extra else None
         results = list(ex.map(job, order))
+        if fut_extra:
+            for r in fut_extra.result():
+                print(f"[{prop}] {r['cell']:<44} {r['verdict']:<12} {r['wall_s']:>7.1f}s  {r['reason']}", flush=True)
+                results.append(r)
 
     known = load_known()
     violations = []
@@ -444,7 +486,10 @@ def _check(prop, tier, seed, cells, scratch, t0, props_meta):
     if violations:
         from replay import confirm_violation
         for r, fails in violations:
-            cell = next(c for c in cells if c.name == r["cell"])
+            cell = next((c for c in cells if c.name == r["cell"]), None)
+            if cell is None:      # non-Kani query (solver lemma): nothing to replay natively
+                inconclusive.append(r)
+                continue
             conf = confirm_violation(prop, cell, r, fails, scratch)
             r["replay"] = conf
             if conf["confirmed"]:
